@@ -11,9 +11,9 @@ git apply $d || exit 2
 t=$(/venv/bin/python -m pytest -q -p no:cacheprovider 2>&1 | tail -1)
 PYTHONPATH=$wt timeout 120 /venv/bin/python $demo >/dev/null 2>&1; mut=$?
 git checkout -q -- pyairtouch
-echo "$pid_$x clean=$clean mutant=$mut tests=[$t]"
+echo "${pid}_$x clean=$clean mutant=$mut tests=[$t]"
 case "$t" in *"272 passed"*) ;; *) echo "TESTS FAIL"; exit 1;; esac
 [ $clean = 0 ] && [ $mut != 0 ] || { echo "DEMO does not discriminate"; exit 1; }
-out=/verif/seeded/${pid}_$x; mkdir -p $out
+out=/verif/seeded/${pid}_${TAG:-}$x; mkdir -p $out
 cp $d $out/patch.diff; cp $demo $out/demo.py
 echo "imported $out"
